@@ -342,7 +342,9 @@ func Unquote(s string) string {
 
 // handleDir chooses either the out dir or the actual output location depending on the 'dir' flag.
 func handleDir(outDir, output string, dir bool) string {
-	if dir {
+	if dir && outDir == "" {
+		return "." // The root package; an empty string would not be a directory argument.
+	} else if dir {
 		return outDir
 	}
 	return filepath.Join(outDir, output)
